@@ -184,3 +184,25 @@ def two_mpf_inputs(seed=0, tier='quick'):
 
 
 GENS.update({'one_mpf_inputs': one_mpf_inputs, 'two_mpf_inputs': two_mpf_inputs})
+
+
+def pow_int_inputs(seed=0, tier='quick'):
+    rng = random.Random(seed)
+    bases = list(small_mpfs(32, (-2, 0, 3)))
+    for bc in (20, 53, 64, 100):
+        for m in mant_patterns(bc, rng, 1)[:3]:
+            bases.append(mk(0, m, -bc + 1))
+            bases.append(mk(1, m, 5 - bc))
+    ns = [-300, -17, -3, -2, -1, 0, 1, 2, 3, 5, 7, 10, 31, 64, 100, 255, 256, 1000, 4097] if tier == 'quick' \
+        else list(range(-40, 300)) + [1000, 4097, 10 ** 4]
+    precs = (1, 2, 5, 10, 24, 53) if tier == 'quick' else (1, 2, 3, 5, 10, 24, 53, 64, 113)
+    for s in bases:
+        for n in ns:
+            if s[1] == 0 and n < 0:
+                continue
+            for prec in precs:
+                for rnd in RND5:
+                    yield dict(s=s, n=n, prec=prec, rnd=rnd)
+
+
+GENS['pow_int_inputs'] = pow_int_inputs
